@@ -45,7 +45,7 @@ def run(rep):
     jobs = []
     nargs = 0
     for n, (L, label, arg) in enumerate(corpus.corpus(rep.seed, 30 if thorough else 6, P.LOGIC_META, 'c09')):
-        if not thorough and label.startswith('schema:') and (n + zlib.crc32(L.encode())) % 3:
+        if not thorough and label.startswith('schema:') and not label.startswith('schema:ord-') and (n + zlib.crc32(L.encode())) % 3:
             continue
         nargs += 1
         for k, (a, g, r, mode, o, how) in enumerate(variants(arg, thorough)):
